@@ -342,6 +342,12 @@ class StepOps:
         if last == "hasattr" and len(node.args) == 2 and args and self._is_iter(args[0]) \
                 and isinstance(node.args[1], ast.Constant) and node.args[1].value in ("aclose", "__anext__", "__aiter__"):
             return True
+        if last == "count" and len(args) <= 2 and not node.keywords and self._resolved_kind(node.func) == "stdlib" \
+                and all(isinstance(a_, int) and not isinstance(a_, bool) for a_ in args):
+            # ``itertools.count(start=0, step=1)``: a counter object with a position of its own
+            return ("COUNT", self._new(env, [args[0] if args else 0]), args[1] if len(args) > 1 else 1)
+        if last == "repeat" and len(args) == 1 and not node.keywords and self._resolved_kind(node.func) == "stdlib":
+            return ("REPEAT", args[0])  # ``itertools.repeat(x)``: the very object, again and again
         t = self._lib_unit(node.func)
         if self._is_repeat_unit(t) and len(args) == 1:
             return ("REPEAT", args[0])
@@ -667,7 +673,12 @@ class StepOps:
                 result = el[0] if el else (ev.eval(call.args[1], env) if len(call.args) == 2 else ("@raise", "StopIteration"))
         elif last == "next" and call.args and not call.keywords and self._resolved_kind(f) in ("builtin", "stdlib"):
             it = ev.eval(call.args[0], env)
-            if self._is_iter(it):
+            if isinstance(it, tuple) and it[:1] == ("COUNT",) and self._is_list(it[1]):
+                # ``next(counter)`` of an ``itertools.count()``: the running number, which then advances
+                cur = self._get(env, it[1])[0]
+                self._set(env, it[1], [cur + it[2]])
+                result = cur
+            elif self._is_iter(it):
                 result = self._pull(it, env)
                 if _is_end(result):
                     result = ev.eval(call.args[1], env) if len(call.args) == 2 else ("@raise", "StopIteration")
